@@ -11,7 +11,9 @@ Three kinds of cases:
               errors.*, registry, both name caches) compared with the model; the CONCRETE outcome of every call
               compared with the first occurrence of the same call in the case, and - probes, a fixed pool of calls,
               every history call of the cases marked fresh='all' - with the same call in a FRESH interpreter;
-              every database object deep-frozen (all attributes) before / after it is formatted or written;
+              every database object deep-frozen (all attributes) before / after it is formatted or written; the databases
+              formatted / written on a retained object are DB_TEXT and the person-list family `names_text` (name counts 1..6,
+              trailing "and others", both roles, the entry types the label styles tell apart);
 * `freshhist` histories over CONCRETE calls the model cannot predict (tests/data/xampl.bib through every style,
               backend and format, filtered by citation lists; malformed input; key-less files): oracle only.
 """
@@ -36,6 +38,7 @@ from props.base import corpus_for  # noqa: F401
 ID = 'C18'
 LEAN_MODULES = ['PybtexModel.Props.C18', 'PybtexModel.Props.C18x']
 SERIAL = False
+LINECOV_CHILDREN = True   # impl() runs pybtex in forked children: they dump the lines they executed (harness/linecov.py)
 CASE_TIMEOUT = 300      # a case is a whole history (up to ~2500 calls in the cache-overflow cases), run in a forked child
 THEOREMS = {
     'C18_memo_transparent': 'memoize: after EVERY call sequence the cache is part of the graph of f, holds at most `capacity` entries and '
@@ -125,7 +128,10 @@ RULE = ('dbhist: BibliographyData(wanted_entries=cits) + a sequence of add_entry
         'batches of > capacity distinct format.name$ calls, an earlier call of the history made again} with a 4-call probe (8 probe sets covering '
         'every call kind) repeated at every position and compared with a fresh /venv/bin/python process; EVERY call\'s concrete outcome is compared '
         'with its first occurrence in the case, and for the fixed pool of calls and all history calls of the first 140 (quick) / 1600 (thorough) '
-        'cases with a fresh interpreter; every case runs in a forked child of a process that never calls pybtex; freshhist: tests/data/xampl.bib '
+        'cases with a fresh interpreter; every case runs in a forked child of a process that never calls pybtex; person-list databases (1..6 names, with / without a '
+        'trailing "and others", author / editor role, article / book / inbook / proceedings / manual) formatted with alpha, unsrtalpha, plain, unsrt and written in '
+        'every format, the database object retained, deep-frozen before / after and formatted again (9 fixed histories + seeded random person lists); '
+        'freshhist: tests/data/xampl.bib '
         'through styles/backends/formats, filtered by citation lists, key-less entries; '
         'non-trivial = memo sequence with more distinct keys than capacity, or non-empty history; distinct by case JSON')
 TRUSTED = ['introspection of the closure cells `memory`/`history`/`capacity` of pybtex.utils.memoize (harness only)',
@@ -430,6 +436,82 @@ DB_TEXT = '''@string{jf = "Journal of Foo"}
 @book{w2, editor = "Lamport, Leslie", title = "Second", publisher = "Pub", year = "2001", crossref = "w1"}
 '''
 
+# (gap c18-6) databases whose PERSON LISTS vary: 1..6 names, with and without a trailing "and others", in the author and in the
+# editor role, for every entry type the alpha label style treats differently (book / inbook: author, else editor; proceedings:
+# editor; manual: author; everything else: author).  They are formatted / written through the `plugin` calls exactly as
+# DB_TEXT is: the database object is RETAINED, deep-frozen before / after, formatted again and compared.
+NAME_POOL = ['Knuth, Donald E.', 'Leslie Lamport', 'de la Fontaine, Jean', 'von Neumann, John', 'Ada Lovelace', 'Turing, Alan M.', 'Hopper, Grace']
+NAME_TYPES = {'article': ['author'], 'book': ['author', 'editor'], 'inbook': ['author', 'editor'], 'proceedings': ['editor'], 'manual': ['author']}
+_NAME_REST = {'article': 'journal = "Some Journal", ', 'book': 'publisher = "Pub", ', 'inbook': 'pages = "1--2", publisher = "Pub", ',
+              'proceedings': '', 'manual': ''}
+_NAME_LINE = re.compile(r'^@([a-z]+)\{(n[0-9]+), ((?:(?:author|editor) = "[A-Za-z., ]*", ){1,2})title = "Title ([0-9]+)", (.*)year = "([0-9]{4})"\}$')
+_NAME_ROLE = re.compile(r'(author|editor) = "([A-Za-z., ]*)", ')
+
+
+def names_text(entries):
+    """entries: [[type, key number, [[role, [name, ...]], ...], year]] -> .bib text, one complete entry per line"""
+    out = []
+    for typ, num, roles, year in entries:
+        out.append('@%s{n%d, %stitle = "Title %d", %syear = "%d"}' % (
+            typ, num, ''.join('%s = "%s", ' % (role, ' and '.join(names)) for role, names in roles), num, _NAME_REST[typ], year))
+    return '\n'.join(out) + '\n'
+
+
+def names_spec(text):
+    """inverse of names_text; None when `text` is not of that form (used by valid_case: the shrinker must stay inside the family)"""
+    if not isinstance(text, str) or not text.endswith('\n'):
+        return None
+    entries, seen = [], set()
+    for line in text[:-1].split('\n'):
+        m = _NAME_LINE.match(line)
+        if not m or m.group(1) not in NAME_TYPES or m.group(2) in seen or m.group(2) != 'n' + m.group(4):
+            return None
+        seen.add(m.group(2))
+        roles = [[r, ns.split(' and ')] for r, ns in _NAME_ROLE.findall(m.group(3))]
+        if len({r for r, _ in roles}) != len(roles) or any(r not in NAME_TYPES[m.group(1)] for r, _ in roles):
+            return None
+        for _r, ns in roles:
+            if not ns or any(n not in NAME_POOL for n in ns[:-1]) or ns[-1] not in NAME_POOL + ['others'] or ns == ['others']:
+                return None
+        entries.append([m.group(1), int(m.group(4)), roles, int(m.group(6))])
+    if not entries or len(entries) > 6 or names_text(entries) != text:
+        return None
+    return entries
+
+
+_P = NAME_POOL
+NAME_TEXTS = [names_text(e) for e in [
+    # two / three names + others (author of an article; editor of a book), one name alone
+    [['article', 1, [['author', _P[:2] + ['others']]], 1999], ['book', 2, [['author', _P[1:2]]], 1986],
+     ['book', 3, [['editor', _P[3:4] + ['others']]], 2001]],
+    # more than four names without / with others; exactly four; the editors of proceedings, the authors of a manual
+    [['article', 1, [['author', _P[:5]]], 1984], ['manual', 2, [['author', _P[1:7] + ['others']]], 1985],
+     ['proceedings', 3, [['editor', _P[2:6]]], 1990], ['inbook', 4, [['editor', _P[:3] + ['others']]], 1991]],
+    # author AND editor on one entry (the label reads the authors only), the same label twice (suffixes a / b)
+    [['book', 1, [['author', _P[4:6] + ['others']], ['editor', _P[:2] + ['others']]], 2004],
+     ['inbook', 2, [['author', _P[4:6] + ['others']]], 2004], ['proceedings', 3, [['editor', _P[5:7] + ['others']]], 2010],
+     ['article', 4, [['author', [_P[6], _P[0], _P[2], _P[1], _P[3], _P[4]]]], 1970]],
+]]
+del _P
+
+
+def gen_names_text(rng):
+    entries = []
+    for num in range(1, rng.randint(2, 4) + 1):
+        typ = rng.choice(['article', 'article', 'book', 'book', 'inbook', 'proceedings', 'manual'])
+        roles = []
+        for role in (NAME_TYPES[typ] if rng.random() < 0.25 else [rng.choice(NAME_TYPES[typ])]):
+            names = [rng.choice(NAME_POOL) for _ in range(rng.choice([1, 1, 2, 2, 3, 4, 5, 6]))]
+            if rng.random() < 0.5:
+                names.append('others')
+            roles.append([role, names])
+        entries.append([typ, num, roles, rng.choice([1970, 1999, 1999, 2004])])
+    return names_text(entries)
+
+
+def db_text_ok(text):
+    return text == DB_TEXT or names_spec(text) is not None
+
 
 # ------------------------------------------------------------------------------------------------
 # executing one call on the real implementation
@@ -638,6 +720,11 @@ def _base_call(call, notes):
                 if full['again'] != full['child']:
                     notes.append('repeat_identical: %s format_bibliography(db, %r) twice on the same database object gives different results: %s' % (
                         name, keys[-1:], _first_diff(full['again'], full['child'])))
+                # (gap c18-6) ... and everything once more, with a NEW style object: labels, sorting and entry texts of all entries
+                full['all_again'] = _latex(cls().format_bibliography(db, keys[::-1]))
+                if full['all_again'] != full['str']:
+                    notes.append('repeat_identical: %s format_bibliography(db, %r) twice on the same database object gives different results: %s' % (
+                        name, keys[::-1], _first_diff(full['all_again'], full['str'])))
                 ents = [db.entries[k] for k in keys[::-1]]
                 ids = [id(e) for e in ents]
                 full['entries'] = [e.key for e in style.format_entries(ents, db)]
@@ -1013,6 +1100,11 @@ def impl_world(case):
                 buf = buf[os.write(w, buf):]
         except BaseException:  # noqa
             code = 1
+        try:    # line coverage of the repository as seen by this child (harness/linecov.py; informational)
+            import linecov
+            linecov.dump_child()
+        except BaseException:  # noqa
+            pass
         os._exit(code)
     os.close(w)
     chunks = []
@@ -1209,7 +1301,7 @@ def describe(call):
     if c == 'climain':
         return 'climain%s(%s)' % ('--strict' if call['strict'] else '', describe(call['call']))
     if c == 'plugin':
-        return '%s:%s' % (call['group'].split('.')[-1], call['name'])
+        return '%s:%s%s' % (call['group'].split('.')[-1], call['name'], '' if call.get('text') in (DB_TEXT, YAML_TEXT, XML_TEXT, None) else '+names')
     if c in ('bibtex', 'python'):
         return '%s:%s' % (c, call['style'])
     if c == 'parse' and is_keyless(call['files']):
@@ -1743,6 +1835,31 @@ def gen_xcall(rng):
     return gen_call(rng)
 
 
+def names_cases():
+    """(gap c18-6) the fixed person-list databases through every formatting style and writer, the database object retained
+    (see the `plugin` branch of _base_call): 3 histories per database"""
+    cases = []
+    F = lambda name, t: _plug('style.formatting', name, t)
+    W = lambda name, t: _plug('database.output', name, t)
+    for i, t in enumerate(NAME_TEXTS):
+        cases.append({'op': 'worldhist', 'fresh': 'all', 'probe': PROBES[6],
+                      'history': [F('alpha', t), W('yaml', t), F('unsrtalpha', t)]})
+        cases.append({'op': 'worldhist', 'fresh': 'all', 'probe': PROBES[4],
+                      'history': [F('plain', t), F('unsrt', t), W('bibtex', t), W('bibtexml', t)]})
+        cases.append({'op': 'worldhist', 'fresh': 'all', 'probe': PROBES[i % len(PROBES)],
+                      'history': [_ns(F('unsrtalpha', t)), _cap(F('alpha', t)), _cap(F('plain', t)), _ns(W('bibtex', t)), F('alpha', t)]})
+    return cases
+
+
+def gen_names_call(rng):
+    t = gen_names_text(rng) if rng.random() < 0.8 else rng.choice(NAME_TEXTS)
+    if rng.random() < 0.7:
+        call = _plug('style.formatting', rng.choice(['alpha', 'alpha', 'unsrtalpha', 'unsrtalpha', 'plain', 'unsrt']), t)
+    else:
+        call = _plug('database.output', rng.choice(['bibtex', 'yaml', 'bibtexml']), t)
+    return _mode(rng, call)
+
+
 def memo_cases():
     cases = []
     for cap, raising, maxlen in ((2, [], 6), (3, [], 6), (2, [3], 6), (1, [], 4), (1, [0], 4)):
@@ -1967,12 +2084,12 @@ def _valid_call(call, warns=False):
             c == 'python' or call['style'] in ('unsrt', 'plain', 'nosuch', 'tiny')) and (c == 'bibtex' or call['style'] != 'tiny')
     if c == 'plugin':
         names = {'pybtex.database.input': ('yaml', 'bibtexml', 'nosuch'), 'pybtex.database.output': ('bibtex', 'yaml', 'bibtexml', 'nosuch'),
-                 'pybtex.style.formatting': ('unsrt', 'plain', 'alpha')}
+                 'pybtex.style.formatting': ('unsrt', 'plain', 'alpha', 'unsrtalpha')}
         if call['name'] not in names.get(call['group'], ()):
             return False
         if call['group'] == 'pybtex.database.input':
             return call['text'] == {'yaml': YAML_TEXT, 'bibtexml': XML_TEXT}.get(call['name'], YAML_TEXT)
-        return call['text'] == DB_TEXT
+        return db_text_ok(call['text'])     # DB_TEXT or a database of the person-list family (names_text)
     if c == 'fmtmany':
         return call['count'] >= 1 and call['fmt'] in FORMATS[:4] and IDENT.match(call['prefix']) is not None
     return False
@@ -2003,6 +2120,7 @@ def gen_cases(tier, rng, info):
             _cap({'c': 'bibtex', 'style': 'plain', 'files': [PDOC]}),
             {'c': 'fmtmany', 'prefix': 'Name', 'start': big - 40, 'count': 60, 'fmt': FORMATS[j % 2], 'mode': mode, 'first': 'Ann B.'},
             {'c': 'fmtmany', 'prefix': 'Name', 'start': 0, 'count': 30, 'fmt': FORMATS[2], 'mode': 'plain'}]})
+    name_cases = names_cases()           # deterministic: no draw from rng
     fresh_cases = []
     for i in range(24 if quick else 160):
         fresh_cases.append({'op': 'freshhist', 'history': [gen_xcall(rng) for _ in range(rng.randint(1, 3 if quick else 6))], 'probe': XPROBE,
@@ -2010,22 +2128,36 @@ def gen_cases(tier, rng, info):
     for c in fresh_cases:
         for h in c['history']:
             _fix_plugin_text(h)
-    hist_calls = [h for c in world + fresh_cases if c.get('fresh') == 'all' for h in c['history'] if h['c'] != 'fmtmany']
-    prewarm([p for c in world + fresh_cases for p in c['probe']], forked=POOL + hist_calls)
+    hist_calls = [h for c in world + name_cases + fresh_cases if c.get('fresh') == 'all' for h in c['history'] if h['c'] != 'fmtmany']
+    prewarm([p for c in world + name_cases + fresh_cases for p in c['probe']], forked=POOL + hist_calls)
     # the forked children against separately started interpreters, on a sample (a difference is a defect of the harness)
     sample = rng.sample(hist_calls, min(len(hist_calls), 6 if quick else 40))
     for c in sample:
         if canon(_spawn_fresh(c)) != canon(_FRESH[canon(c)]):
             raise RuntimeError('forked fresh child and fresh interpreter process differ on %s' % canon(c)[:300])
+    # (gap c18-6) seeded histories in which databases with RANDOM person lists are formatted / written (drawn after everything
+    # else: the stream of the older families is unchanged)
+    n_det = len(name_cases)
+    for i in range(16 if quick else 400):
+        hist = []
+        for _ in range(rng.randint(1, 3 if quick else 6)):
+            hist.append(gen_names_call(rng) if rng.random() < 0.65 else _fix_plugin_text(gen_call(rng)))
+        case = {'op': 'worldhist', 'history': hist, 'probe': PROBES[i % len(PROBES)]}
+        if quick or i < 120:
+            case['fresh'] = 'all'
+        name_cases.append(case)
+    prewarm([], forked=[h for c in name_cases[n_det:] if c.get('fresh') == 'all' for h in c['history'] if h['c'] != 'fmtmany'])
     info['exhaustive'] = True
-    info['scope'] = ('capturehist: all %d operation sequences of length <= 5 over 6 operations that never leave a block they did not enter + %d seeded ones of length <= 15; ' % (
+    info['scope'] = ('namehist (worldhist over person-list databases): %d fixed histories = 3 databases (1..6 names, with / without a trailing "and others", author / editor, '
+                     'article / book / inbook / proceedings / manual) x 3 histories over {format_bibliography with alpha, unsrtalpha, plain, unsrt; to_string bibtex, yaml, bibtexml}, '
+                     'plain / capture() / non-strict, + %d seeded histories with random person lists; ' % (n_det, len(name_cases) - n_det) +'capturehist: all %d operation sequences of length <= 5 over 6 operations that never leave a block they did not enter + %d seeded ones of length <= 15; ' % (
         n_err_exh, len(ecases) - n_err_exh) + 'dbhist: all %d (citation list of <= 2 over 4 spellings or none) x (add_entry sequences of <= %d over 7 entries) + %d seeded; ' % (
         n_db_exh, 2 if quick else 3, len(dcases) - n_db_exh) + 'memohist: all %d key sequences (capacity 2, 3: length <= 6 over 4 keys; capacity 2 with a raising key; capacity 1: length <= 4); '
                      'worldhist: %d seeded histories of <= %d calls x probe at every position (+ %d cache-overflow histories with %d distinct '
                      'format.name$ arguments); freshhist: %d concrete histories over tests/data' % (
                          n_memo, n_world, maxh, len(world) - n_world, big, len(fresh_cases)))
     # spread the expensive histories evenly through the list so that the worker pool shares them
-    heavy = world[:48] + world[n_world:] + fresh_cases + world[48:n_world]
+    heavy = world[:48] + world[n_world:] + name_cases + fresh_cases + world[48:n_world]
     out = []
     every = max(1, len(cases) // max(1, len(heavy)))
     hi = 0
